@@ -290,7 +290,7 @@ static Fault* match_fault(int op, int cls, const char* path) {
 /* ------------------------------------------------------------ cookie streams */
 typedef struct {
     int      fi;
-    uint32_t pos;
+    uint64_t pos; /* may lie far behind the end of the file, as on a real file system */
     int      append, rd, wr;
 } Ck;
 
@@ -307,7 +307,7 @@ static ssize_t ck_read(void* c, char* buf, size_t n) {
         errno = ft->arg;
         return -1;
     }
-    uint32_t r = k->pos < f->len ? f->len - k->pos : 0;
+    uint32_t r = k->pos < f->len ? (uint32_t)(f->len - k->pos) : 0;
     if (r > n) r = (uint32_t)n;
     int shortened = 0;
     if (read_chunk && r > read_chunk) {
@@ -357,7 +357,12 @@ static ssize_t ck_write(void* c, const char* buf, size_t n) {
         errno = ENOSPC;
         return 0;
     }
-    if (ensure_cap(f, k->pos + (uint32_t)apply) < 0) sim_die(3, 3);
+    if (k->pos + apply > 0x7fffffffu) { /* beyond what the simulated disk can ever hold */
+        log_ev(EV_WRITE, k->fi, (uint32_t)k->pos, (uint32_t)n, -EFBIG, 2, 0);
+        errno = EFBIG;
+        return 0;
+    }
+    if (ensure_cap(f, (uint32_t)k->pos + (uint32_t)apply) < 0) sim_die(3, 3);
     if (k->pos > f->len) memset(A->data + f->off + f->len, 0, k->pos - f->len);
     memcpy(A->data + f->off + k->pos, buf, apply);
     log_ev(EV_WRITE, k->fi, k->pos, (uint32_t)apply, (int)apply, ft != NULL, 0);
@@ -382,12 +387,12 @@ static int ck_seek(void* c, off64_t* off, int wh) {
         sim_die(2, 0);
     }
     b += *off;
-    if (b < 0 || b > 0x7fffffff) {
+    if (b < 0 || b >= ((off64_t)1 << 44)) { /* ext4's 16 TiB file size limit */
         errno = EINVAL;
         log_ev(EV_SEEK, k->fi, k->pos, 0, -EINVAL, 0, 0);
         return -1;
     }
-    k->pos = (uint32_t)b;
+    k->pos = (uint64_t)b;
     *off   = b;
     log_ev(EV_SEEK, k->fi, k->pos, 0, 0, 0, (uint32_t)wh);
     return 0;
